@@ -485,7 +485,9 @@ pub fn sql_session(
                         Err(e) => Err(e.to_string().lines().next().unwrap_or("").to_string()),
                     });
                 }
-                db.shutdown().await.map_err(|e| e.to_string())?;
+                // no shutdown at the end (it waits for the 1 s compactor tick): dropping the runtime
+                // stops the background tasks, and the scratch directory is removed
+                drop(db);
                 Ok(out)
             })
     })
